@@ -569,7 +569,7 @@ impl Scenario for History {
         "history simulation without faults: per case one container kind (VecDeque of u8/u32/u128/i16/f64/String/derived enum, Vec, String, BTreeMap+BTreeSet, LinkedList, BitVec over u8/u16/u32/u64 x Lsb0/Msb0) and 1..60 seeded operations (push/pop both ends, insert, remove, rotate, make_contiguous, reserve, shrink_to_fit, truncate, drain, extend, clear, push_back/pop_front cycling, with_capacity starts; split_off/append/retain for maps, sets, lists and bit vectors) mirrored on a naive model; after EVERY operation encode(), encode_to(custom Output), using_encoded and encoded_size must equal those of the same logical content rebuilt in the simplest way, twice in a row; at the end the holders &T, &&T, &mut T, Box, Rc (extra strong refs), Arc (weak ref), Cow::Borrowed/Owned are compared, and for bit sequences every sub-slice offset 0..=70 x 14 lengths as BitSlice, to_bitvec(), from_bitslice and BitBox; non-trivial = every history; distinct = container kind x operation-name sequence x (wrapped / flat)"
     }
     fn cases(&self, tier: Tier) -> u64 {
-        tiered(tier, 150_000, 15_000_000)
+        tiered(tier, 600_000, 20_000_000)
     }
     fn gen(&self, seed: u64, idx: u64, _tier: Tier) -> Plan {
         let mut rng = Rng::for_case(seed, "history", idx);
